@@ -69,6 +69,7 @@ func HClose(fd int) error {
 			NetpollOpen--
 		}
 		FDs[fd] = FDInfo{}
+		vconns[fd] = nil
 		for i := range FDs {
 			if FDs[i].EpollIn == fd {
 				FDs[i].EpollIn = 0
@@ -167,4 +168,18 @@ func OpenDescriptors() []int {
 		}
 	}
 	return out
+}
+
+// Reconcile drops ledger entries of netpoll-owned descriptors that were closed outside vsys by
+// their real owner (an os.File inside the standard library).
+func Reconcile() {
+	for fd := range FDs {
+		if FDs[fd].Open && FDs[fd].Owner == OwnNetpoll {
+			var st syscall.Stat_t
+			if err := syscall.Fstat(fd, &st); err == syscall.EBADF {
+				FDs[fd] = FDInfo{}
+				NetpollOpen--
+			}
+		}
+	}
 }
